@@ -206,11 +206,15 @@ fn macro_expand(
         bail!("call undefined macro {} on {}", macro_name, line);
     }
 
+    // Last segment is kept even if it is empty: body which ends with .cseg/.dseg/.eseg/.org
+    // switches segment for code after macro call
+    let last = segments.borrow().len().saturating_sub(1);
     let segments = segments
         .borrow()
         .iter()
-        .filter(|x| !x.borrow().is_empty())
-        .map(|x| x.borrow().clone())
+        .enumerate()
+        .filter(|(index, x)| *index == last || !x.borrow().is_empty())
+        .map(|(_, x)| x.borrow().clone())
         .collect();
 
     Ok(segments)
